@@ -301,6 +301,9 @@ use proto_vulcan::lterm::LTerm;
 use proto_vulcan::operator::{anyo, cond, conda, condu, dfs, onceo};
 use proto_vulcan::relation::{append, cons, distinct, empty, first, member, member1, permute, rember, rest};
 use proto_vulcan::operator::{matche, matcha, matchu};
+use proto_vulcan::relation::{diseqfd, distinctfd, infd, infdrange, ltefd, ltfd, minusfd, plusfd, timesfd};
+use proto_vulcan::relation::clpz::plusz::plusz;
+use proto_vulcan::relation::clpz::timesz::timesz;
 use proto_vulcan::solver::{Solve, Solver};
 use proto_vulcan::state::State;
 use proto_vulcan::stream::Stream;
